@@ -782,7 +782,7 @@ func TestC36(t *testing.T) {
 		st.Count("corpus")
 		st.Sample(out.replay, 2)
 	}
-	n := e.Pick(500, 12000)
+	n := e.Pick(500, 8000)
 	for i := 0; i < n; i++ {
 		cfg := genConfig(e, i%25 == 24)
 		g := newGen(e, cfg)
